@@ -115,9 +115,12 @@ def u_read_list(ctx, index):
     # (`new_regex_list` in the code as it stands; the contract does not depend on the name)
     if 'lname' not in st:
       cands = [k for k, v in fr.locals.items() if isinstance(v, PyList) and not v.items]
-      if len(cands) != 1:
+      if len(cands) == 1:
+        st['lname'] = cands[0]
+      elif 'new_regex_list' in fr.locals:
+        st['lname'] = 'new_regex_list'          # the name it has in the code as it stands
+      else:
         raise EngineError("read_list: cannot identify the list under construction (%r)" % (cands,))
-      st['lname'] = cands[0]
     name = st['lname']
     v = fr[name]
     if isinstance(v, PyList):
